@@ -198,6 +198,57 @@ def scenario(exe, root, seed, stats):
     a.destroy()
     return results or None
 
+def copy_then_loss(exe, root, seed, stats):
+    """the sync that completes comes after a history of provisional hashes: a copy with preserved time-stamp (copy detection),
+    a partial sync that does not reach it, the copy touched / appended / rewritten with the same bytes, then the full
+    sync; then the disk of the copy (or of the source) is lost: fix must bring everything back"""
+    rng = e2e.Rng(seed)
+    a = e2e.Arr(root, exe, ndisks=2 + rng.below(2), nparity=1 + rng.below(2), ncontent=1, hashsize=rng.choice([16, 8]))
+    s = sim.Sim(a, rng.fork(), weird_names=False)
+    s.populate(2 + rng.below(3))
+    big = rng.bytes(a.block * (3 + rng.below(6)) + rng.below(2) * 33)
+    t0 = s.tick()
+    a.write('d1', 'big.bin', big, t0)
+    if s.sync().rc != 0:
+        a.destroy(); return None
+    dst = rng.choice(['d2/big.bin', 'd2/copies/big.bin'])
+    dd, drel = dst.split('/', 1)
+    a.write(dd, drel, big, t0); s.log('cp -p d1/big.bin %s' % dst)
+    how = rng.below(3)
+    if how == 0: s.run('sync', '--test-run', 'touch "%s"' % a.path('d1', 'big.bin'))
+    elif how == 1: s.run('sync', '-B', str(1 + rng.below(2)))
+    else: s.run('sync', '--test-run', 'touch "%s"' % a.path(dd, drel))
+    p = a.path(dd, drel)
+    k = rng.below(3)
+    if k == 0:
+        t = s.tick(); os.utime(p, ns=(t, t)); s.log('touch %s' % dst)
+    elif k == 1:
+        with open(p, 'ab') as f: f.write(rng.bytes(1 + rng.below(2000)))
+        t = s.tick(); os.utime(p, ns=(t, t)); s.log('append to %s' % dst)
+    else:
+        with open(p, 'r+b') as f: f.write(big)
+        t = s.tick(); os.utime(p, ns=(t, t)); s.log('rewrite %s in place with the same bytes' % dst)
+    r = s.sync()
+    if r.rc != 0: r = s.sync()
+    if r.rc != 0 or s.run('diff').rc != 0:
+        a.destroy(); return None
+    stats['copy_then_loss'] = stats.get('copy_then_loss', 0) + 1
+    snap = fx.snapshot(a)
+    lost = rng.choice([dd, dd, 'd1'])
+    fx.wipe_disk(a, lost); s.log('disk %s lost' % lost)
+    f = a.cmd('fix')
+    diffs = fx.compare_snapshot(a, snap)
+    cfg = 'copy-then-loss ndisks=%d nparity=%d hashsize=%d seed=%d' % (a.ndisks, a.nparity, a.hashsize, seed)
+    problem = None
+    if diffs: problem = 'after fix: ' + diffs[0]
+    elif f.rc != 0: problem = 'fix exit status %d' % f.rc
+    else:
+        c = a.cmd('check')
+        if c.rc != 0: problem = 'check after fix exits %d' % c.rc
+    hist = '\n'.join(s.history)
+    a.destroy()
+    return [('(%s) %s' % (cfg, problem), '%s\n%s\nhistory:\n%s' % (cfg, problem, hist))] if problem else None
+
 def main(tier, seed):
     chk = vlib.Check('C01', 'proof', tier, seed)
     chk.assumptions = ['theorems are stripe level (search over parity combinations with hash acceptance + C03 uniqueness); whole-array recovery, time-stamps, links, directories, POSIX effects are decided by the E2E-RECOVER correspondence only (partial)',
@@ -219,7 +270,7 @@ def main(tier, seed):
     def job(i):
         return scenario(exe, os.path.join(vlib.scratch(), 'r%d' % i), seed * 100000 + 10000 + i, stats)
     with ThreadPoolExecutor(vlib.NCPU) as ex:
-        res = list(ex.map(job, range(n)))
+        res = list(ex.map(job, range(n))) + list(ex.map(lambda i: copy_then_loss(exe, os.path.join(vlib.scratch(), 'cl%d' % i), seed * 100000 + 15000 + i, stats), range(24 if tier == 'quick' else 240)))
     k = 0
     for r in res:
         if r:
@@ -232,7 +283,7 @@ def main(tier, seed):
             chk.violation('C01 static obligation failed: ' + o[0], o[0] + '\n' + o[2], False, 'static')
     chk.evaluations = stats['fixes']
     chk.distinct = stats['fixes']
-    chk.rule = ('%d seeded arrays (1-4 data disks, 1-6 parities incl. z-mode, hash size 4/8/16, both hash kinds, split parity, 1-3 content copies, history with partial/killed/-R syncs ending clean) x 3 damage patterns from {<=N whole devices lost or overwritten, per-stripe <=N silently changed blocks in varying columns, <=N columns with deleted/truncated/flipped files, lost links/dirs, partly corrupted parity}, optionally a single surviving content copy; fix must restore every byte, time-stamp, link, dir, report nothing unrecoverable, exit 0, and check must then exit 0' % n)
+    chk.rule = ('%d seeded arrays (1-4 data disks, 1-6 parities incl. z-mode, hash size 4/8/16, both hash kinds, split parity, 1-3 content copies, history with partial/killed/-R syncs ending clean) x 3 damage patterns from {<=N whole devices lost or overwritten, per-stripe <=N silently changed blocks in varying columns, <=N columns with deleted/truncated/flipped files, lost links/dirs, partly corrupted parity}, optionally a single surviving content copy; names of same-size files exchanged by rename}, optionally a single surviving content copy, damaged-in-place files with new time-stamps, a hash migration in progress; plus copy-then-loss histories (a copy with preserved stamp, a partial sync, the copy touched/appended/rewritten, the full sync, then the disk of the copy or of the source lost); fix must restore every byte, time-stamp, link, dir, report nothing unrecoverable, exit 0, and check must then exit 0' % n)
     chk.samples = [dict(stats)]
     chk.corr['E2E-RECOVER'] = dict(stats)
     chk.finish()
